@@ -1056,6 +1056,82 @@ def tx_solvers(repo):
     return tree, chain, direct
 
 
+# ----------------------------------------------------------------------------- bond limit looked up by _update_mps; uses of `inverse`
+def tx_mtrunc(repo):
+    """(single-state, state-averaged) x (to_right, to_left): the site index handed to compute_m_trunc; _fixed_m_trunc's bond"""
+    mp = ast.parse(open(repo + "/renormalizer/mps/mp.py").read())
+    f = find_func(find_class(mp, "MatrixProduct"), "_update_mps")
+    found = []
+    for n in ast.walk(f):
+        if isinstance(n, ast.If) and ast.unparse(n.test) == "self.to_right":
+            cb = [c for st in n.body for c in ast.walk(st) if isinstance(c, ast.Call) and isinstance(c.func, ast.Attribute) and c.func.attr == "compute_m_trunc"]
+            co = [c for st in n.orelse for c in ast.walk(st) if isinstance(c, ast.Call) and isinstance(c.func, ast.Attribute) and c.func.attr == "compute_m_trunc"]
+            if cb or co:
+                if len(cb) != 1 or len(co) != 1:
+                    fail("_update_mps: compute_m_trunc calls per direction", n)
+                found.append((n.lineno, cb[0], co[0]))
+    allc = [c for c in ast.walk(f) if isinstance(c, ast.Call) and isinstance(c.func, ast.Attribute) and c.func.attr == "compute_m_trunc"]
+    if len(found) != 2 or len(allc) != 4:
+        fail("_update_mps: expected the bond limit to be looked up in two `if self.to_right` statements (single state, state averaged)", f)
+    found.sort()
+
+    def idx(c):
+        if len(c.args) != 3 or c.keywords or ast.unparse(c.args[2]) != "self.to_right" or ast.unparse(c.func.value) != "self.compress_config":
+            fail("compute_m_trunc arguments: %s" % ast.unparse(c), c)
+        t = ast.unparse(c.args[1])
+        tab = {"cidx[0]": "(nth 0 cidx dead)", "cidx[1]": "(nth 1 cidx dead)", "cidx[-1]": "(last cidx dead)"}
+        if t not in tab:
+            fail("compute_m_trunc site index %s" % t, c)
+        return tab[t]
+    out = ["(if to_right then %s else %s)" % (idx(a), idx(b)) for _, a, b in found]
+    cf = ast.parse(open(repo + "/renormalizer/utils/configs.py").read())
+    g = find_func(find_class(cf, "CompressConfig"), "_fixed_m_trunc")
+    if argnames(g) != ["self", "sigma", "idx", "left"]:
+        fail("_fixed_m_trunc signature", g)
+    body = [ast.unparse(st) for st in strip_doc(g.body)]
+    if body[-1] != "return min(self.max_dims[bond_idx], len(sigma))":
+        fail("_fixed_m_trunc return", g)
+    asg = [st for st in strip_doc(g.body) if isinstance(st, ast.Assign) and ast.unparse(st.targets[0]) == "bond_idx"]
+    if len(asg) != 1:
+        fail("_fixed_m_trunc bond_idx", g)
+    ex = Ex(Sym(names={"idx": Zv("idx"), "left": Bv("left")}))
+    v = ex.expr(asg[0].value)
+    if v[0] != "Z":
+        fail("_fixed_m_trunc bond_idx expression", g)
+    h = find_func(find_class(cf, "CompressConfig"), "compute_m_trunc")
+    calls = [c for c in ast.walk(h) if isinstance(c, ast.Call) and ast.unparse(c.func) == "self._fixed_m_trunc"]
+    if not calls or any([ast.unparse(a) for a in c.args] != ["sigma", "idx", "left"] for c in calls):
+        fail("compute_m_trunc -> _fixed_m_trunc arguments", h)
+    return out[0], out[1], v[1]
+
+
+def tx_inverse(repo):
+    """is the local operator multiplied by optimize_config.inverse where it is handed to a solver? (dense matrix, diagonal, matvec)"""
+    gs = ast.parse(open(repo + "/renormalizer/mps/gs.py").read())
+
+    def has_inv_def(f):
+        return any(isinstance(st, ast.Assign) and ast.unparse(st) == "inverse = mps.optimize_config.inverse" for st in ast.walk(f))
+    fd = find_func(gs, "eigh_direct")
+    eighs = [c for c in ast.walk(fd) if isinstance(c, ast.Call) and ast.unparse(c.func) == "scipy.linalg.eigh"]
+    if len(eighs) != 1 or len(eighs[0].args) != 1:
+        fail("eigh_direct: dense solver call", fd)
+    dense = has_inv_def(fd) and ast.unparse(eighs[0].args[0]) in ("asnumpy(ham) * inverse", "inverse * asnumpy(ham)", "asnumpy(ham * inverse)")
+    fi = find_func(gs, "get_ham_iterative")
+    hd = [st for st in strip_doc(fi.body) if isinstance(st, ast.Assign) and ast.unparse(st.targets[0]) == "hdiag" and "qn_mask" in ast.unparse(st.value)]
+    if len(hd) != 1:
+        fail("get_ham_iterative: masked diagonal", fi)
+    diag = has_inv_def(fi) and ast.unparse(hd[0].value) in ("asnumpy(hdiag[qn_mask] * inverse)", "asnumpy(inverse * hdiag[qn_mask])", "asnumpy(hdiag[qn_mask]) * inverse")
+    fe = find_func(gs, "eigh_iterative")
+    hops = [n for n in ast.walk(fe) if isinstance(n, ast.FunctionDef) and n.name == "hop"]
+    if len(hops) != 1:
+        fail("eigh_iterative: inner hop", fe)
+    co = [st for st in ast.walk(hops[0]) if isinstance(st, ast.Assign) and ast.unparse(st.targets[0]) == "cout"]
+    if len(co) != 1 or "expr(cstruct)" not in ast.unparse(co[0].value):
+        fail("eigh_iterative.hop: product", hops[0])
+    matvec = has_inv_def(fe) and ast.unparse(co[0].value) in ("expr(cstruct) * inverse", "inverse * expr(cstruct)")
+    return dense, diag, matvec
+
+
 # ----------------------------------------------------------------------------- rendering
 def render(d):
     o = []
@@ -1113,6 +1189,18 @@ def render(d):
     a("Definition chain_iter_solvers : list (String.string * selector) := [%s]." % "; ".join('("%s"%%string, %s)' % x for x in d["solvers"][1]))
     a("Definition chain_direct_solver : selector := %s." % d["solvers"][2])
     a("")
+    a("(* mp.py _update_mps: the site index handed to compress_config.compute_m_trunc(sigma, idx, self.to_right) in the single-state and the")
+    a("   state-averaged branch; utils/configs.py _fixed_m_trunc: the bond whose limit max_dims[bond] is read (bond k = left of site k) *)")
+    a("Definition mtrunc_idx_single (to_right : bool) (cidx : list Z) : Z := %s." % d["mtrunc"][0])
+    a("Definition mtrunc_idx_averaged (to_right : bool) (cidx : list Z) : Z := %s." % d["mtrunc"][1])
+    a("Definition fixed_bond (left : bool) (idx : Z) : Z := %s." % d["mtrunc"][2])
+    a("")
+    a("(* gs.py: is the local operator multiplied by optimize_config.inverse where it is handed to a solver?")
+    a("   eigh_direct (dense matrix), get_ham_iterative (diagonal for the preconditioner), eigh_iterative.hop (matrix-vector product) *)")
+    a("Definition inverse_on_dense : bool := %s." % ("true" if d["inverse"][0] else "false"))
+    a("Definition inverse_on_diagonal : bool := %s." % ("true" if d["inverse"][1] else "false"))
+    a("Definition inverse_on_matvec : bool := %s." % ("true" if d["inverse"][2] else "false"))
+    a("")
     a("(* mp.py MatrixProduct._update_mps, step 2: site tensors stored (in order) and the new qnidx *)")
     a("Definition upd_writes (to_right : bool) (n : Z) (cidx : list Z) : list Z := %s." % d["upd"][0])
     a("Definition upd_qnidx (to_right : bool) (n qnidx : Z) (cidx : list Z) : Z := %s." % d["upd"][1])
@@ -1138,6 +1226,8 @@ def main(repo="/repo"):
     d["init"] = tx_optimize_mps(gs)
     pin_tree(repo)
     d["solvers"] = tx_solvers(repo)
+    d["mtrunc"] = tx_mtrunc(repo)
+    d["inverse"] = tx_inverse(repo)
     # Mps.__setitem__ must delegate to MatrixProduct.__setitem__ (the event hook sits there)
     mpsmod = ast.parse(open(base + "mps.py").read())
     si = find_func(find_class(mpsmod, "Mps"), "__setitem__")
